@@ -1025,15 +1025,17 @@ theorem genCfg_spec (cfg : SysCfg) (h : genCfg = some cfg) :
 
 /-! ### `Dtype._create` -/
 
-theorem dtype_value_pure (cap : Nat) (ops : List (Op DtypeArg)) (a : DtypeArg) :
-    match (step (dtypeCfg cap) (run (dtypeCfg cap) St.init ops).1 (.call a)).2 with
+theorem dtype_value_pure (cap : Nat) (typed : Bool) (ops : List (Op DtypeArg)) (a : DtypeArg) :
+    match (step (dtypeCfg cap typed) (run (dtypeCfg cap typed) St.init ops).1 (.call a)).2 with
     | some (.ok d) => dtypeCreate Opts.init a = .ok a ∧ d.valueEq a
     | some (.error e) => dtypeCreate Opts.init a = .error e
     | none => False := by
-  have hcol : ∀ o o' a' v', (dtypeCfg cap).key a' = (dtypeCfg cap).key a → (dtypeCfg cap).f o' a' = .ok v' →
-      ∃ v, (dtypeCfg cap).f o a = .ok v ∧ (v = a ∧ v'.valueEq a) := by
+  have hcol : ∀ o o' a' v', (dtypeCfg cap typed).key a' = (dtypeCfg cap typed).key a →
+      (dtypeCfg cap typed).f o' a' = .ok v' →
+      ∃ v, (dtypeCfg cap typed).f o a = .ok v ∧ (v = a ∧ v'.valueEq a) := by
     intro o o' a' v' hk hv
-    simp only [dtypeCfg] at hk hv ⊢
+    simp only [dtypeCfg, DtypeArg.tkey, Prod.mk.injEq] at hk hv ⊢
+    replace hk := hk.1
     have hv'a' : v' = a' := by
       unfold dtypeCreate at hv
       split at hv
@@ -1061,10 +1063,11 @@ theorem dtype_value_pure (cap : Nat) (ops : List (Op DtypeArg)) (a : DtypeArg) :
         · cases hv
         · rename_i hx
           rw [if_neg (by rw [← hsc.1]; exact hx)]
-  have := correct_upto (dtypeCfg cap) (fun v v' => v = a ∧ v'.valueEq a) a hcol
-    (run (dtypeCfg cap) St.init ops).1 (computed_run (dtypeCfg cap) ops St.init (by intro e he; cases he))
+  have := correct_upto (dtypeCfg cap typed) (fun v v' => v = a ∧ v'.valueEq a) a hcol
+    (run (dtypeCfg cap typed) St.init ops).1
+    (computed_run (dtypeCfg cap typed) ops St.init (by intro e he; cases he))
   revert this
-  cases (step (dtypeCfg cap) (run (dtypeCfg cap) St.init ops).1 (.call a)).2 with
+  cases (step (dtypeCfg cap typed) (run (dtypeCfg cap typed) St.init ops).1 (.call a)).2 with
   | none => exact id
   | some r =>
     cases r with
@@ -1072,5 +1075,33 @@ theorem dtype_value_pure (cap : Nat) (ops : List (Op DtypeArg)) (a : DtypeArg) :
     | ok d =>
       rintro ⟨v, hv, rfl, hd⟩
       exact ⟨hv, hd⟩
+
+/-- With typed keys nothing collides: the key determines the argument. -/
+theorem tkey_typed_inj (a a' : DtypeArg) (h : DtypeArg.tkey true a' = DtypeArg.tkey true a) : a' = a := by
+  obtain ⟨n1, l1, s1⟩ := a'
+  obtain ⟨n2, l2, s2⟩ := a
+  simp only [DtypeArg.tkey, DtypeArg.key, if_true, Prod.mk.injEq] at h
+  obtain ⟨⟨hn, hl, hs⟩, hk⟩ := h
+  subst hn hl
+  cases s1 with
+  | none => cases s2 with
+    | none => rfl
+    | some y => simp at hs
+  | some x => cases s2 with
+    | none => simp at hs
+    | some y =>
+      obtain ⟨xn, xd, xk⟩ := x
+      obtain ⟨yn, yd, yk⟩ := y
+      simp only [Option.map_some, Option.some.injEq, Prod.mk.injEq] at hs hk
+      obtain ⟨h1, h2⟩ := hs
+      subst h1 h2 hk
+      rfl
+
+theorem dtype_exact_typed (cap : Nat) (ops : List (Op DtypeArg)) (a : DtypeArg) :
+    (step (dtypeCfg cap true) (run (dtypeCfg cap true) St.init ops).1 (.call a)).2
+      = some (dtypeCreate Opts.init a) :=
+  correct_exact (dtypeCfg cap true) a (fun _ _ => rfl) (fun a' h => tkey_typed_inj a a' h)
+    (run (dtypeCfg cap true) St.init ops).1
+    (computed_run (dtypeCfg cap true) ops St.init (by intro e he; cases he))
 
 end BM.C09
